@@ -170,8 +170,10 @@ def run(ctx):
     r2.check(not problems, ccon + "::filters", "NameFilter(patterns=targets) iff targets are given; EndpointFilter(graph.endpoints(), mode='exclude') iff not --all",
              "the selection of targets to clean is wrong: " + "; ".join(problems[:3]) + " - without --all the outputs of endpoint targets must be kept, and only named targets are cleaned",
              clean.where)
-    from .shared import rule_name_selection
+    from .shared import rule_name_selection, rule_flag_default
     rule_name_selection(ctx, r2, "the targets of `gwf clean PATTERN...`")
+    rule_flag_default(ctx, r2, "gwf.plugins.clean:clean", "--all", "endpoint outputs would be removed although --all was not given")
+    rule_flag_default(ctx, r2, "gwf.plugins.clean:clean", "--force", "cleaning everything would never ask for confirmation")
     m_ok = True
     epf = idx.func("gwf.filtering:EndpointFilter.predicate")
     pol = {}
